@@ -424,7 +424,8 @@ func init() {
 
 func ExecReader(data any, selector string) (any, error) {
 	mut.Lock()
-	if _, ok := cache[selector]; !ok {
+	parsed, ok := cache[selector]
+	if !ok {
 		allSelectors := make([][]any, 0)
 		selectors := strings.Split(selector, "::")
 		for _, item := range selectors {
@@ -436,10 +437,11 @@ func ExecReader(data any, selector string) (any, error) {
 			allSelectors = append(allSelectors, selectors)
 		}
 		cache[selector] = allSelectors
+		parsed = allSelectors
 	}
 	mut.Unlock()
 	result := data
-	for _, item := range cache[selector] {
+	for _, item := range parsed {
 		rs, err := ReaderExecutor(result, item)
 		if err != nil {
 			return nil, err
